@@ -60,6 +60,11 @@ def generate(rng: random.Random, tier: str, seed: int) -> dict:
         if rng.random() < 0.6:
             pp["table2"] = dict(tab)
         a["nodes"] = a["nodes"] + [{"processor": "SvPoly", "parameters": pp}]
+    if rng.random() < 0.25:
+        # a `parameters:` key that is present but empty (YAML null) on a node that takes all its parameters from elsewhere
+        cand = [n for n in a["nodes"] if "parameters" not in n and "derive" not in n]
+        if cand:
+            rng.choice(cand)["parameters"] = None
     sc = {"A": {k: a[k] for k in ("nodes", "context", "init_data")}, "B": {k: b[k] for k in ("nodes", "context", "init_data")},
           "worlds": [], "hashseed": rng.choice([1, 2, 3, 4, 5, 6, 7]), "child_world": rng.getrandbits(32)}
     if rng.random() < 0.5:
